@@ -79,6 +79,8 @@ def run(ctx) -> None:
         if not gcalls:
             ctx.bad("R1", f"{root}: the version gate is not called", f"{root} never calls {GATE}: any computed or user-supplied version is accepted",
                     loc=fn.loc(), what=f"{root}: gate called")
+            n_gate += 1          # the instance was examined (and found missing)
+            n_ann += len(_announce_sites(ctx, fn))
             continue
         n_gate += len(gcalls)
         true_edges: T.List[T.Tuple[int, int, T.Any]] = []
